@@ -311,7 +311,10 @@ func runCase(cs *Case, sched []int, solo int) *result {
 				o.Inv = ticket
 				tmu.Unlock()
 				o.Now = time.Now().Unix()
-				o.Reply = srv.Exec(impl.S(o.Argv...))
+				ser := srv.ExecDeferred(impl.S(o.Argv...))
+				// the executor has returned; the reply is serialised afterwards, as the connection handler does: one more gate
+				c.park(t, Step{"reply", "-", 0})
+				o.Reply = ser()
 				tmu.Lock()
 				ticket++
 				o.Res = ticket
